@@ -246,6 +246,7 @@ theorem step_rel (hQ : Q.falsyRoute = false) (h : Rel E pd pu) :
             simp [within, hk, this, withinF_eq]
           apply mapOut_good (Res.data k) (fun fs => fs.all (fun p => within E (c.depth + 1) p.2)) _ hw
           have hd' : c.depth + 1 = c'.depth + 1 := by rw [hd]
+          apply failIf_good
           split
           · exact parseDF_good hQ h ⟨c.depth + 1, cd.mode, cd.maxDepth⟩ ⟨c'.depth + 1, cd.mode, none⟩ hd' rfl _ _
           · exact parseFF_good hQ h ⟨c.depth + 1, cd.mode, cd.maxDepth⟩ ⟨c'.depth + 1, cd.mode, none⟩ hd' rfl _ _
@@ -517,7 +518,7 @@ theorem badChain_cost (W : World) (hg : ∀ m, W.leafOk m 0 = true) (hb : ∀ m,
     have : 2 * 0 + 2 + j = j + 1 + 1 := by omega
     rw [this]
     simp [parse, step, nodeEnv_get, exceeded, badChain, parseFF, seqM, lookupKey, parseField, enter, inCtx,
-      mapOut, hb, chainCost]
+      mapOut, hb, chainCost, Mode.lenient, failIf]
   | succ k ih =>
     intro j c
     have : 2 * (k + 1) + 2 + j = (2 * k + 2 + j) + 1 + 1 := by omega
@@ -530,7 +531,7 @@ theorem badChain_cost (W : World) (hg : ∀ m, W.leafOk m 0 = true) (hb : ∀ m,
     have hu := fun c' hc' => union_triples Q (parse W Q nodeEnv (2 * k + 2 + j)) c' hc' (badChain k) (chainCost k)
       (by rw [hkvs]; rfl) (fun c'' => ih j c'') hnone
     simp [parse, step, nodeEnv_get, exceeded, badChain, parseFF, seqM, lookupKey, parseField, enter, inCtx,
-      mapOut, hg, chainCost, hu]
+      mapOut, hg, chainCost, hu, failIf]
     omega
 
 /-- **The unchanged code is exponential** (negation of the cost clause, at full strength): an input of
@@ -791,13 +792,20 @@ theorem step_costOk (B : Nat) (hE : envOk B E = true) (h1 : CostFree rec) (h2 : 
         | none => simp
         | list vs => simp
         | dict kvs =>
-          simp only [mapOut_snd]
+          simp only [mapOut_snd, failIf_snd]
           have hgoal : B * vsizeK kvs ≤ B * vsize (Val.dict kvs) := Nat.mul_le_mul_left _ (by simp [vsize])
           refine Nat.le_trans ?_ hgoal
           split
           · -- data-first
             simp only [parseDF, mapOut_snd]
-            refine Nat.le_trans (seqM_cost_le _ (fun it => B * vsize it.2.2) _ ?_) (knownItems_sum_le B _ _)
+            have hpre : B * vsizeK (if (cd.mode.noLoss && hasUnknown cd.fields kvs) = true
+                then knownPrefix cd.fields kvs else kvs) ≤ B * vsizeK kvs := by
+              apply Nat.mul_le_mul_left
+              split
+              · exact knownPrefix_size _ _
+              · exact Nat.le_refl _
+            refine Nat.le_trans (Nat.le_trans
+              (seqM_cost_le _ (fun (it : String × Ty × Val) => B * vsize it.2.2) _ ?_) (knownItems_sum_le B _ _)) hpre
             intro it hit
             rw [mapOut_snd]
             have := hf (it.1, it.2.1) (knownItems_field _ _ it hit)
@@ -1006,6 +1014,8 @@ theorem step_forced (hrec : ForcedOk E rec) : ForcedOk E (step W Q E rec) := by
       split at h
       · cases h
       · obtain ⟨fs, hfs, rfl⟩ := (mapOut_fst_ok _ _ r).1 h
+        obtain ⟨hbf, hfs⟩ := (failIf_ok _ _ fs).1 hfs
+        simp only [hbf, Bool.false_eq_true, if_false] at hfs
         simp only [rdepth]
         apply Nat.succ_le_succ
         split at hfs
@@ -1375,6 +1385,9 @@ theorem step_rel2 (hQ : Q.falsyRoute = false) (hE : envUnamb E = true) (hrel : R
             simp only at hr ⊢
             refine mapOut_agree _ _ _ ?_ r hr
             intro fs hfs
+            obtain ⟨hbf, hfs⟩ := (failIf_ok _ _ fs).1 hfs
+            refine (failIf_ok _ _ fs).2 ⟨hbf, ?_⟩
+            simp only [hbf, Bool.false_eq_true, if_false] at hfs ⊢
             have hfield : ∀ (t : Ty) (fv : Val) (b : Res), unamb t = true →
                 (parseField Q pd ⟨c.depth + 1, cd.mode, cd.maxDepth⟩ t fv).1 = .ok b →
                 (parseField Q pu ⟨c'.depth + 1, cd.mode, none⟩ t fv).1 = .ok b := by
